@@ -63,3 +63,8 @@ SIMPLE_TYPES = {
     "SheetViewValues": ("ST_SheetViewType", ["normal", "pageBreakPreview", "pageLayout"]),
     "TotalsRowFunctionValues": ("ST_TotalsRowFunction", ["none", "sum", "min", "max", "average", "count", "countNums", "stdDev", "var", "custom"]),
 }
+
+
+# ECMA-376 Part 1, 18.17.2.2 (error constants of the formula grammar) / ST_CellErrorType-like literals that may appear
+# inside formula text.  An error literal the tokenizer does not know never ends its error state.
+FORMULA_ERROR_LITERALS = ["#NULL!", "#DIV/0!", "#VALUE!", "#REF!", "#NAME?", "#NUM!", "#N/A"]
